@@ -419,6 +419,17 @@ def ok_of(prog, T, depth=0):
     """Ok payload(s) of a Result-valued term returned as it is: `x.map(|v| f(v))` -> f(ok(x)); `x.and_then(|v| g(v))` -> the Ok
     payloads of g(ok(x)); anything else -> its Ok payload"""
     from .terms import okval
+    if T[0] == "phi" and depth < 3:
+        # a Result assembled on several paths (`?` exits and the final Ok): the Ok payloads of its non-error alternatives
+        out = []
+        for a in T[2]:
+            if a[0] in ("residual", "errval") or (a[0] == "agg" and a[2] == "core::result::Result" and a[3] == "Err"):
+                continue
+            out += ok_of(prog, a, depth + 1)
+        if out:
+            return out
+    if T[0] == "agg" and T[2] == "core::result::Result" and T[3] == "Ok":
+        return [T[4][0][1]]
     if is_call(T) and len(T[2]) == 2 and T[2][1][0] == "closure" and "result::Result" in T[1] and depth < 3:
         nm = T[1].rsplit("::", 1)[-1]
         body = closure_body(prog, T[2][1], {2: okval(T[2][0])})
@@ -2252,3 +2263,31 @@ def culprits_accessor(ctx):
     ctx.check(not bad and n_c >= 3, "PROV", key, "culprits()-per-variant",
               "Error::culprits() must return the culprit(s) carried by InvalidSignatureShare / InvalidProofOfKnowledge / "
               "InvalidSecretShare and nothing for every other variant: %s" % "; ".join(bad[:4]), f.loc)
+
+
+def used_after_check(r, uses):
+    """inside the element context r (returned by forall_loop / _forall: loop body, per-element closure, either in a helper): the
+    blocks of r["fn"] satisfying `uses(block, call args)` are reachable only through the PASS edges of the per-element check"""
+    F, V = r["fn"], r["view"]
+    hits = set()
+    for (bb, t, ci) in F.calls():
+        if bb in r["body"] and uses(ci, V.call_args(bb)):
+            hits.add(bb)
+    if not hits:
+        return False
+    starts = sorted(r.get("some_targets") or [0]) if r["kind"] == "loop" else [0]
+    reach = set()
+    for s0 in starts:
+        reach |= F.reach(s0, removed=frozenset(r["edges"]))
+    return not (reach & hits)
+
+
+def look_through(P, t):
+    """ok(private helper(..)) -> the helper's Ok payload seen with the call's arguments (a value computed in an extracted helper)"""
+    if t[0] == "ok" and is_call(t[1]):
+        pays = ok_of(P, t[1])
+        if len(pays) == 1 and pays[0] != t:
+            return pays[0]
+    return t
+
+
